@@ -46,6 +46,9 @@ def selector_queries(max_segments: int, rng: random.Random, sample2: int, sample
 
 CORE_SELECTOR_QUERIES = [
     ([["child", [["name", "a"]]]], "obj2"),
+    # member-name shorthand of non-ASCII names that are not "word" characters (RFC 9535: name-char includes %x80-D7FF / %xE000-10FFFF)
+    ([["child", [["name", "\u20ac"]]], ["desc", [["name", "a\u263a"]]]], "obj2"),
+    ([["desc", [["name", "\U0001d11e"]]], ["child", [["name", "\u00d7\u0663"]]]], "deep"),
     ([["child", [["name", "a"], ["name", "b"], ["name", "a"]]]], "obj2"),
     ([["child", [["wild"]]]], "obj2"),
     ([["child", [["wild"], ["name", "b"]]]], "obj2"),
